@@ -474,6 +474,31 @@ pub fn gen(rng: &mut Rng, n: usize, thorough: bool, emit: &mut dyn FnMut(String)
             }
         }
     }
+    // deterministic block 2: a REAL filesystem failure (no hook): fill the window up to the slot
+    // below the top, put a non-empty directory at the top archive name, rotate (the first shift —
+    // or the final move when count = 1 — fails inside move_file: rename and the copy fallback),
+    // append, rotate again while obstructed, remove the obstacle, rotate twice
+    for mode in [true, false] {
+        for pre in [false, true] {
+            for count in 1..=4u32 {
+                for pattern in ["app.log.{}", "arch/app.{}.log.gz"] {
+                    let mut ops = vec![];
+                    for i in 0..count.saturating_sub(1) {
+                        ops.push(Op::Append(format!("<fill{}>", i), true));
+                    }
+                    ops.push(Op::Obstacle);
+                    ops.push(Op::Append("<x1>".to_owned(), true));
+                    ops.push(Op::Append("<x2>".to_owned(), false));
+                    ops.push(Op::Append("<x3>".to_owned(), true));
+                    ops.push(Op::Unobstacle);
+                    ops.push(Op::Append("<x4>".to_owned(), true));
+                    ops.push(Op::Append("<x5>".to_owned(), true));
+                    let h = Hist { mode, pre, pattern, base: 1, count, init: vec![], ops };
+                    emit_hist(emit, &h, &[], None);
+                }
+            }
+        }
+    }
     // random histories; every step of every rotation as point of failure and of death
     let max_ops = if thorough { 30 } else { 12 };
     let mut emitted = 0usize;
